@@ -122,7 +122,15 @@ impl Monitor for C03 {
     fn generate(&self, rng: &mut Rng, _tier: Tier) -> J {
         let js = rng.chance(3, 4);
         let allc = rng.below(3) == 0;
-        let t = std_table(rng, "t", js, allc);
+        let mut t = std_table(rng, "t", js, allc);
+        // a table may have a column that is itself called `input`: the bare name still denotes the raw line, `t.input` the column
+        if t.json && rng.chance(1, 10) {
+            if let Some(at) = t.schema.cols.iter().position(|(n, _)| n == "s") {
+                t.schema.cols[at].0 = "input".into();
+                t.spec.cols[at].name = "input".into();
+                t.spec.cols[at].src = Src::Json(vec![JsonStep::Field("input".into())]);
+            }
+        }
         let hostile = rng.chance(1, 3);
         let dc = DataCfg::random(rng, t.schema.cols.len(), hostile);
         let lines = std_lines(rng, &t, 6, &dc);
